@@ -54,7 +54,15 @@ def run(rep):
     # grammar mutants of valid strings (valid strings from the C12 generator, if available in this run's scratch; else synthetic)
     rng = random.Random(f'{rep.seed}/c13')
     valid = ['KaNb', 'VxFx', 'SxKFxGxm', 'Imn', 'NJm', 'MLa', 'UaBab', 'Fm12', '(A & B)', 'LxFx', 'XxXy(Fx V Gxy)', 'a = b',
-             '~a = b', 'PNA', '(A $ (B % C))', '!a', 'F1a', 'aGb', 'A1 > ~B12', 'Lx(Fx > XyGxy)']
+             '~a = b', 'PNA', '(A $ (B % C))', '!a', 'F1a', 'aGb', 'A1 > ~B12', 'Lx(Fx > XyGxy)',
+             'KVxFxVxGx', 'KVxFxSxGx', 'LxFx & LxGx', '(XxFx V LxGx)', 'UVxFxVxFx']
+    # targeted near-misses of the quantifier rules (vacuous / re-bound / unbound variables next to a legal binder)
+    targeted = ['KVxFxVxFm', 'KVxFmVxFx', 'LxFx & LxFa', 'LxFa & LxFx', 'VxVxFx', 'LxLxFx', 'KVxFxFx', 'LxFx & Fx', 'VxSyFx',
+                'KVxFxVyFx', 'AVxFxSxGm', 'KSxFxVxFm', 'XxFx V LxGa', 'VxKFxVxGx', 'Lx(Fx & LxGx)']
+    for k, t in enumerate(targeted + valid):
+        strs.append({'id': 20_000_000 + k, 'str': t})
+    if False:
+        pass
     for k, m in enumerate(mutants(rng, valid, 20000 if thorough else 3000)):
         strs.append({'id': 10_000_000 + k, 'str': m})
     sf = d / 'all.ndjson'
